@@ -235,7 +235,7 @@ def run(ctx: Ctx):
         )
     ctx.assume("scipy.sparse incidence/containment algebra inside find_group_cohorts is external; the planner as a whole is decided by the bounded (exhaustive up to the stated size) contract, not by proof")
     ctx.trust("scipy.sparse", "toolz.groupby", "dask graph materialisation", "z3 / cvc5")
-    return "other", ("Mixed: tree / block-subset obligations proved on the real source; find_group_cohorts is checked exhaustively up to a size bound (bounded, not proof). " + note)
+    return "other", ("Mixed: only the method-choice clauses are proved on the real source; find_group_cohorts and the tree builder are checked exhaustively up to a size bound (bounded, not proof). " + note)
 
 
 def _case_of(payload):
